@@ -3,7 +3,7 @@
 Stages
   0. harness/props/c13_translate.py re-reads the schemathesis source and rewrites coq/theories/C13/Gen_C13.v (the entropy plan:
      one entry per draw site, Seeded/Ambient).  A call site that disappeared or changed shape -> broken tie.
-  1. proofs (Properties_C13.v: 19 theorems about run / gen_sites / interleave).
+  1. proofs (Properties_C13.v: 20 theorems about run / gen_sites / interleave).
   2. correspondence, plan vs runtime: the engine is run in fresh subprocesses with the Hypothesis boundary instrumented
      (harness/props/c13_runner.py): every PRNG Hypothesis hands to a test is recorded with its explicit seed and whether it was
      consulted.  Compared with the SAME Gallina definitions the theorems are about, evaluated by vm_compute:
@@ -132,6 +132,31 @@ def gen_schema(rng, n_ops=3, exposing=False, body_media="application/json", exam
     return _doc(paths)
 
 
+def with_overrides(rng, raw: dict):
+    """Adds parameters that only a STRICT SUBSET of the operations define and returns (schema, generic headers, override) such that
+    every override applies to some operations and not to others; the first operation (the slow one) always defines the header."""
+    raw = copy.deepcopy(raw)
+    ops = [(path, method, op) for path, item in raw["paths"].items() for method, op in item.items()]
+    assert len(ops) >= 2
+    n = len(ops)
+    tenant = {0} | {i for i in range(1, n - 1) if rng.random() < 0.3}  # never the last one
+    cookie = {rng.randrange(n)}
+    for i, (_, _, op) in enumerate(ops):
+        params = op.setdefault("parameters", [])
+        params[:] = [p for p in params if p["name"] not in ("X-Tenant", "sid", "ovq")]
+        if i in tenant:
+            params.append({"name": "X-Tenant", "in": "header", "required": rng.random() < 0.5, "schema": {"type": "string", "enum": ["t1", "t2"]}})
+        if i in cookie:
+            params.append({"name": "sid", "in": "cookie", "required": True, "schema": {"type": "string", "enum": ["s1"]}})
+        if i % 2 == 1:
+            params.append({"name": "ovq", "in": "query", "required": False, "schema": {"type": "string", "maxLength": 4}})
+    headers = {"X-Trace": "demo", "User-Agent": "c13-agent"} if rng.random() < 0.5 else {"X-Trace": "demo"}
+    override = {"headers": {"X-Tenant": "acme"}, "query": {"ovq": "ov"}, "cookies": {"sid": "ck"}, "path_parameters": {}}
+    if rng.random() < 0.3:
+        override["query"] = {}
+    return raw, headers, override
+
+
 def multi_file(raw: dict) -> dict:
     """Move every parameter schema and body schema into a second file, referenced by relative $ref."""
     raw = copy.deepcopy(raw)
@@ -224,6 +249,19 @@ def evidence(run: dict, phase: str) -> dict:
     }
 
 
+def req_shape(r) -> str:
+    """Everything of a request except the generated VALUES: method, path depth, header names, query parameter names.  A different
+    pool of constants (finding F6) changes drawn strings only, never this."""
+    from urllib.parse import parse_qsl
+
+    path, _, query = r["target"].partition("?")
+    return json.dumps([r["method"], op_key(r), path.count("/"), sorted(k for k, _ in r["headers"]), sorted(k for k, _ in parse_qsl(query, keep_blank_values=True))])
+
+
+def same_shapes(a: list, b: list) -> bool:
+    return Counter(map(req_shape, a)) == Counter(map(req_shape, b))
+
+
 def first_diff(a: list, b: list):
     for i, (x, y) in enumerate(zip(a, b)):
         if x != y:
@@ -243,18 +281,20 @@ def model_plan() -> dict:
     ctxs = [(p, n, m) for p in PHASE_CTOR for n in (False, True) for m in (False, True)]
     exprs = [
         f"(ctx_seeded gen_sites {c_ctx(*c)}, ambient_ids_of_kind Unseeded gen_sites {c_ctx(*c)}, "
-        f"ambient_ids_of_kind OsRandom gen_sites {c_ctx(*c)}, ambient_ids_of_kind HashOrder gen_sites {c_ctx(*c)})"
+        f"ambient_ids_of_kind OsRandom gen_sites {c_ctx(*c)}, ambient_ids_of_kind HashOrder gen_sites {c_ctx(*c)}, "
+        f"ambient_ids_of_kind SharedState gen_sites {c_ctx(*c)})"
         for c in ctxs
     ]
     vals = core.coq_eval(IMPORTS, exprs)
-    return {c: {"seeded": v[0], "Unseeded": v[1], "OsRandom": v[2], "HashOrder": v[3]} for c, v in zip(ctxs, vals)}
+    return {c: {"seeded": v[0], "Unseeded": v[1], "OsRandom": v[2], "HashOrder": v[3], "SharedState": v[4]} for c, v in zip(ctxs, vals)}
 
 
 # ----------------------------------------------------------------------------------------
 # one scenario: same seed, three processes
 # ----------------------------------------------------------------------------------------
 class Scenario:
-    def __init__(self, name, schema, phases, modes=("positive",), multipart=False, responder="ok", workers=1, max_examples=4, step_count=None, strict=False):
+    def __init__(self, name, schema, phases, modes=("positive",), multipart=False, responder="ok", workers=1, max_examples=4, step_count=None, strict=False,
+                 headers=None, override=None, slow_prefix=None, slow_s=0.0, preimport=False):
         self.name = name
         self.schema = schema
         self.phases = list(phases)
@@ -265,10 +305,16 @@ class Scenario:
         self.max_examples = max_examples
         self.step_count = step_count
         self.strict = strict  # built from the safe palette only: expected (not assumed) to be free of ambient draws
+        self.headers = headers  # generic request headers (NetworkConfig.headers / -H)
+        self.override = override  # Override(query/headers/cookies/path_parameters) (--set-*): applies to the operations that define the parameter
+        self.slow_prefix = slow_prefix
+        self.slow_s = slow_s
+        self.preimport = preimport
 
     def spec(self, seed, repeat=1, workers=None):
         return {"schema": self.schema, "phases": self.phases, "modes": self.modes, "seed": seed, "workers": workers or self.workers,
-                "max_examples": self.max_examples, "responder": self.responder, "repeat": repeat, "step_count": self.step_count}
+                "max_examples": self.max_examples, "responder": self.responder, "repeat": repeat, "step_count": self.step_count,
+                "headers": self.headers, "override": self.override, "slow_prefix": self.slow_prefix, "slow_s": self.slow_s, "preimport": self.preimport}
 
 
 def region_for(kind: str, phase: str, negative: bool) -> str:
@@ -311,7 +357,7 @@ def compare_pair(chk, plan, sc: Scenario, seed, label: str, r1: dict, r2: dict, 
             kinds.append("Unseeded")
         if e1["boundary"] or e2["boundary"]:
             kinds.append("OsRandom")
-        if e1["pool"] != e2["pool"] and len(a) == len(b):
+        if e1["pool"] != e2["pool"] and len(a) == len(b) and same_shapes(a, b):
             # (only the values drawn from the pool can differ: the number of requests stays the same)
             # foreign ambient state, not a site of the schemathesis source: attributed directly (finding F6), not through the plan
             chk.count(f"attributed:LocalConstants:{phase}")
@@ -380,7 +426,9 @@ def run(chk: core.Check):
         "scenarios = fixed witnesses (examples fill-in, coverage draw, multipart, negative mutation, swagger2 example/x-example) + schemas drawn from "
         "VERIF_SEED (1-4 operations, query/path/header parameters and JSON bodies over a safe palette (string/boolean/bounded integer/enum/maxLength) and an "
         "exposing palette (not/pattern/multipleOf/format/exclusiveMinimum)), single- and multi-file; engine seed drawn per scenario; each scenario = "
-        "3 fresh processes (2 runs in the first; same PYTHONHASHSEED; different PYTHONHASHSEED); non-trivial = the phase sent at least 2 requests"
+        "3 fresh processes (2 runs in the first; same PYTHONHASHSEED; different PYTHONHASHSEED); configured scenarios add generic request headers "
+        "(NetworkConfig.headers, with and without User-Agent) and Override(headers/query/cookies) for parameters that only a strict subset of the operations "
+        "define; worker scenarios (1/2/3 workers) come plain and configured with a slow first operation; non-trivial = the phase sent at least 2 requests"
     )
 
     # ---- 0. translate the source into Gen_C13.v
@@ -412,7 +460,7 @@ def run(chk: core.Check):
     # the Python-side reading of the translator output must agree with what Coq computes from Gen_C13.v (the file Coq compiled is the one just written)
     if translated is not None:
         for (p, n, m), v in plan.items():
-            ids = {k: [] for k in ("Unseeded", "OsRandom", "HashOrder")}
+            ids = {k: [] for k in ("Unseeded", "OsRandom", "HashOrder", "SharedState")}
             seeded = True
             for s in translated["sites"]:
                 act = PHASE_CTOR[p] in s["phases"] and (not s["neg_only"] or n) and (not s["multipart_only"] or m) and s["in_request"]
@@ -450,6 +498,11 @@ def run(chk: core.Check):
             scenarios.append(Scenario(f"r{i}-both-modes", gen_schema(rng, n_ops, exposing=rng.random() < 0.5), ["examples", "coverage", "fuzzing"], ["positive", "negative"]))
         else:
             scenarios.append(Scenario(f"r{i}-multifile-exposing", multi_file(gen_schema(rng, n_ops, exposing=True)), ["examples", "coverage"]))
+    # generic headers + overrides that apply to a strict subset of the operations
+    for i in range((1 if quick else 10) * mult):
+        raw, hdrs, ov = with_overrides(rng, gen_schema(rng, rng.randint(2, 4)))
+        scenarios.append(Scenario(f"cfg{i}-headers-overrides", raw, ["examples", "coverage", "fuzzing"], rng.choice([["positive"], ["positive", "negative"]]),
+                                  headers=hdrs, override=ov, strict=True))
     seeds = {sc.name: rng.choice([0, 1, 2**31, 2**64 + 3]) if rng.random() < 0.3 else rng.randrange(1, 10**6) for sc in scenarios}
     hash_a = str(rng.randrange(0, 1000))
     hash_b = str(rng.randrange(1000, 2000))
@@ -464,6 +517,16 @@ def run(chk: core.Check):
     wscen = []
     for i in range((2 if quick else 20) * mult):
         sc = Scenario(f"workers{i}", gen_schema(rng, rng.randint(3, 5), examples=True), ["examples", "coverage", "fuzzing"], strict=True)
+        seeds[sc.name] = rng.randrange(1, 10**6)
+        wscen.append(sc)
+        for w in (1, 2, 3):
+            jobs.append((sc, f"W{w}", sc.spec(seeds[sc.name], workers=w), hash_a))
+    # the same with generic headers + overrides for a strict subset of the operations and a SLOW first operation, so that with 2-3
+    # workers other threads take the later operations (per-worker state that outlives an operation shows up as a different multiset)
+    for i in range((2 if quick else 12) * mult):
+        raw, hdrs, ov = with_overrides(rng, gen_schema(rng, rng.randint(3, 4), examples=True))
+        sc = Scenario(f"workers-cfg{i}", raw, ["examples", "coverage", "fuzzing"], strict=True, headers=hdrs, override=ov,
+                      slow_prefix="/op0", slow_s=0.05, preimport=True)
         seeds[sc.name] = rng.randrange(1, 10**6)
         wscen.append(sc)
         for w in (1, 2, 3):
@@ -548,7 +611,7 @@ def run(chk: core.Check):
                 chk.seen({"workers": [sc.name, w, phase]}, len(a) >= 2)
                 bad = [op for op in ops if Counter(req_key(r) for r in a if op_key(r) == op) != Counter(req_key(r) for r in b if op_key(r) == op)]
                 same_counts = all(sum(1 for r in a if op_key(r) == op) == sum(1 for r in b if op_key(r) == op) for op in ops)
-                if bad and ev1["pool"] != evn["pool"] and same_counts:
+                if bad and ev1["pool"] != evn["pool"] and same_counts and same_shapes(a, b):
                     wstage["attributed_local_constants"] = wstage.get("attributed_local_constants", 0) + 1
                     chk.fail(f"{w} workers: per-operation multiset differs (Hypothesis local-constants pool changed while other workers imported modules)",
                              {"scenario": sc.name, "seed": seeds[sc.name], "phase": phase, "workers": w, "operations": bad}, {"pool_one": ev1["pool"], "pool_many": evn["pool"]},
